@@ -1,5 +1,5 @@
 From Coq Require Import List ZArith NArith Bool Lia.
-From Verif Require Import common.Int64 common.Sexp gen.GenArith c10.Arith64 c10.NumModel.
+From Verif Require Import common.Int64 common.Sexp gen.GenArith c10.Arith64 c10.NumModel c10.Decimal.
 Import ListNotations.
 Open Scope Z_scope.
 
@@ -155,3 +155,6 @@ Proof. reflexivity. Qed.
 (* a number that reaches the encoder untouched is printed with the digits it had *)
 Lemma literal_verbatim t : encode_num (NLit t) = t.
 Proof. reflexivity. Qed.
+
+Lemma encode_reads_back n : wfnum n -> lit_value (encode_num n) = value n.
+Proof. intros _. apply encode_reads_back'. Qed.
